@@ -56,7 +56,7 @@ def _walk_bodies(el):
 @st.composite
 def rich_models(draw, max_bodies=4, assets=True, defaults=True, frames=True, replicate=True, contact=True,
                 custom=True, keyframes=True, compiler=True, sizes=True, visual=True, extras=True, min_meshes=0,
-                min_textures=0, usethread=None, base_kwargs=None, hull=True, memory=None, fusestatic=True, muscles=True):
+                min_textures=0, usethread=None, base_kwargs=None, hull=True, memory=None, fusestatic=True, muscles=False):
   kw = dict(max_bodies=max_bodies, sensors=True, mocap=True, userdata=True, cameras=True, lights=True,
             opt_kwargs=dict(sleep=False))
   kw.update(base_kwargs or {})
@@ -544,7 +544,7 @@ def rich_models(draw, max_bodies=4, assets=True, defaults=True, frames=True, rep
       if comp_el is None:
         comp_el = ET.Element('compiler')
         root.insert(0, comp_el)
-      ET.SubElement(comp_el, 'lengthrange', uselimit='true')
+      ET.SubElement(comp_el, 'lengthrange', uselimit='true', inttotal='2', interval='1')
       labels.add('muscle')
 
   # ---------------- contact
